@@ -366,6 +366,26 @@ func TestVerifC14(t *testing.T) {
 	for q := 0; q < hk.N(300, 8000); q++ {
 		mcs = append(mcs, mcase{new(big.Int).SetBytes(rng.Bytes(32)), new(big.Int).SetBytes(rng.Bytes(32)), pts[rng.Intn(len(pts))], "random"})
 	}
+	// the point at infinity as the variable point (every projective representation (0 : y : 0), through the random
+	// rescaling below), with INDEPENDENT g and s: the result is [g]G whatever s is; and special g, s against each other
+	for q := 0; q < hk.N(40, 400); q++ {
+		g, sc := new(big.Int).SetBytes(rng.Bytes(32)), new(big.Int).SetBytes(rng.Bytes(32))
+		switch q % 8 {
+		case 1:
+			g = bi(0)
+		case 2:
+			sc = bi(0)
+		case 3:
+			g = bi(1)
+		case 4:
+			sc = bi(1)
+		case 5:
+			g = new(big.Int).Set(ref.SM2N)
+		case 6:
+			sc = new(big.Int).Sub(ref.SM2N, bi(1))
+		}
+		mcs = append(mcs, mcase{g, sc, ref.Inf(), "P=infinity,g-and-s-independent"})
+	}
 	r.Sample(hk.D{"op": "ScalarMixedMult_Unsafe", "g": hk.Hex(ref.B32(mcs[5].g)), "s": hk.Hex(ref.B32(mcs[5].s)), "P": ptHex(mcs[5].P)})
 	hk.Parallel(len(mcs), func(i int) {
 		if !hk.InShard(i) {
